@@ -185,6 +185,18 @@ def run_verus_cached(path):
 
 
 def process_unit(unit, tier, seed):
+    """one unit at a time per name, also across concurrently running checks (they share build/<unit>.rs)"""
+    import fcntl
+    os.makedirs(BUILD, exist_ok=True)
+    with open(os.path.join(BUILD, unit + ".lock"), "w") as lk:
+        fcntl.flock(lk, fcntl.LOCK_EX)
+        try:
+            return process_unit_locked(unit, tier, seed)
+        finally:
+            fcntl.flock(lk, fcntl.LOCK_UN)
+
+
+def process_unit_locked(unit, tier, seed):
     """returns dict(status=ok|undecided, reason, failures=[...], functions=[...], canary=..., cmd, times)"""
     r = dict(unit=unit, status="ok", reason=None, failures=[], functions=[], canaries=dict(total=0, failed_as_required=0),
              cmds=[], smt_ms=0, wall=0.0, norm={}, items=[], assumptions={}, per_function=[])
